@@ -559,15 +559,65 @@ theorem Lands.pure_stop {k : Key} {cfg : FlowCfg} {hd : Head} {P : Nat → Prop}
     Lands k cfg hd (fun (a : Bool × List Key) q => a.1 = false → P q) (EStateM.pure (true, nh)) :=
   Lands.pure _ (by intro h; cases h)
 
+
+theorem Pres.bind {α β : Type} {k : Key} {cfg : FlowCfg} {hd : Head} {x : M α} {f : α → M β}
+    (hx : Pres k cfg hd x) (hf : ∀ a, Pres k cfg hd (f a)) : Pres k cfg hd (EStateM.bind x f) := by
+  refine ⟨fun s hc hh => ?_⟩
+  have h1 := hx.run s hc hh
+  unfold EStateM.bind
+  split
+  · rename_i a s1 hxs
+    rw [hxs] at h1
+    exact (hf a).run s1 h1.1 h1.2
+  · rename_i e s1 hxs
+    rw [hxs] at h1
+    exact h1
+
+/-- `flow_state.status = STOPPING` (the `Abort` element without a catch label): an index write that leaves every head alone -/
+theorem pres_setFlowStatus_stopping (f : FUid) (h : HUid) (cfg : FlowCfg) (hd : Head) :
+    Pres (f, h) cfg hd (setFlowStatus f .stopping) := by
+  unfold setFlowStatus
+  refine Pres.bind ?_ (fun _ => Keeps.pres (by keeps) _ _ _)
+  refine ⟨fun s hc hh => ?_⟩
+  have hg : (Op.setFlowStatus f FlowStatus.stopping).guard s.ixs.ix = true := by
+    simp only [Op.guard]
+    split <;> simp
+  obtain ⟨s1, h1, hix, hr⟩ := applyOp_ok _ s hg
+  rw [h1]
+  refine ⟨by show cfgOf s1.r f = some cfg; rw [hr]; exact hc, ?_⟩
+  show headOf s1 (f, h) = some hd
+  unfold headOf at hh ⊢
+  rw [hix]
+  simp only [step]
+  rw [findInst_modifyInst _ _ _ _ (by intro i; rfl), if_pos rfl]
+  cases hi : findInst s.ixs.ix f with
+  | none => rw [hi] at hh; cases hh
+  | some i => rw [hi] at hh; exact hh
+
+
+theorem Lands.bind_pyRaise {α β : Type} {k : Key} {cfg : FlowCfg} {hd : Head} {T : β → Nat → Prop} (c m : String)
+    (f : α → M β) : Lands k cfg hd T (EStateM.bind (pyRaise c m) f) :=
+  ⟨fun _ hc hh => ⟨hc, hd, hh, rfl, Or.inl rfl⟩⟩
+
+theorem Lands.bind_unsupported {α β : Type} {k : Key} {cfg : FlowCfg} {hd : Head} {T : β → Nat → Prop} (w : String)
+    (f : α → M β) : Lands k cfg hd T (EStateM.bind (unsupported w) f) :=
+  ⟨fun _ _ _ => trivial⟩
+
+/-- side conditions `… → Edge (classify cfg) u v` of the rules: with `succs (classify cfg) u = […]` among the hypotheses -/
+macro "lands_side" : tactic => `(tactic| (intro _; simp only [SlideGraph.Edge]; simp [*]; done))
+
 macro "lands_step" : tactic => `(tactic| first
   | with_reducible_and_instances exact Lands.pure_stop _
-  | (with_reducible_and_instances refine Lands.setHeadPos_pure _ _ ?_)
+  | (with_reducible_and_instances refine Lands.setHeadPos_pure _ _ ?_; try lands_side)
   | (with_reducible_and_instances refine Lands.bind_labelPos ?_; intro _ _)
+  | with_reducible_and_instances exact Lands.bind_pyRaise _ _ _
+  | with_reducible_and_instances exact Lands.bind_unsupported _ _
   | (with_reducible_and_instances refine Lands.bind_keeps (by keeps) ?_)
+  | (with_reducible_and_instances refine Lands.bind_pres (pres_setFlowStatus_stopping _ _ _ _) ?_)
   | intro _
   | split
   | dsimp only)
-macro "lands" : tactic => `(tactic| repeat lands_step)
+macro "lands" : tactic => `(tactic| repeat (any_goals lands_step))
 
 /-! ### the classification, pointwise -/
 
